@@ -91,7 +91,7 @@ def run(ctx):
         st = [en for en in rules.entries(sq) if en.loops()]
         for nm in sorted({a.name for a in sq.events if a.kind == "assign"}):
             st += [en for en in rules.entries(sq, name=nm) if en.loops() and en.how != "store"]
-        st = [en for en in st if en.loops()[-1][2] == T.call("enumerate", (big_edges,)) and not (en.elem[0] == "idx" and en.elem[2] == en.key)]
+        st = [en for en in st if rules.roles(en.loops()[-1]).base == big_edges and not (en.elem[0] == "idx" and en.elem[2] == en.key)]
         if len(st) != 1:
             raise AnalysisError(f"get_intensities[{mode}]: expected one entry per interface in the intensity dictionary, found {len(st)}")
         e = st[0]
